@@ -254,15 +254,16 @@ def type_width(t):
 
 
 class Env:
-    def __init__(self, storage, params, this_rec):
+    def __init__(self, storage, params, this_rec, objs=None):
         self.storage = storage  # list of terms or None
         self.vars = dict(params)
         self.this_rec = this_rec
+        self.objs = objs or {}  # parameter decl -> storage of the object it refers to (read-only)
         self.ret = None
         self.returned = False
 
     def fork(self):
-        e = Env(list(self.storage) if self.storage is not None else None, self.vars, self.this_rec)
+        e = Env(list(self.storage) if self.storage is not None else None, self.vars, self.this_rec, self.objs)
         e.vars = dict(self.vars)
         e.ret = self.ret
         e.returned = self.returned
@@ -303,6 +304,10 @@ class Interp:
                     cur = cur["base"]
                     continue
                 if cur.get("k") == "this":
+                    objdecl = None
+                    break
+                if cur.get("k") == "ref" and cur.get("decl") in env.objs:
+                    objdecl = cur["decl"]
                     break
                 raise Unsupported("member access on non-this object: %s" % cur.get("k"))
             off = sum(o for o, _ in chain)
@@ -311,6 +316,8 @@ class Interp:
                 w, sg = type_width(f0["t"])
                 if f0["t"].get("k") == "bool":
                     w = f0["t"].get("sbits", 8)
+                if objdecl is not None:
+                    return ("obj:" + objdecl, off, w, sg)
                 return ("storage", off, w, sg)
             raise Unsupported("aggregate member %s used as scalar" % f0["name"])
         raise Unsupported("unsupported lvalue %s" % k)
@@ -321,6 +328,8 @@ class Interp:
             if a not in env.vars:
                 raise Unsupported("read of unknown variable %s" % a)
             return env.vars[a].resize(w, sg) if env.vars[a].w != w else BV(env.vars[a].bits, sg)
+        if kind.startswith("obj:"):
+            return BV(env.objs[kind[4:]][a:a + w], sg)
         if env.storage is None:
             raise Unsupported("storage access without object")
         return BV(env.storage[a:a + w], sg)
@@ -330,6 +339,8 @@ class Interp:
         v = val.resize(w, sg)
         if kind == "var":
             env.vars[a] = v
+        elif kind.startswith("obj:"):
+            raise Unsupported("write to an object passed by reference")
         else:
             if env.storage is None:
                 raise Unsupported("storage access without object")
@@ -501,9 +512,15 @@ class Interp:
             params[p["decl"]] = a.resize(pw, psg) if a.w != pw else BV(a.bits, psg)
         if "obj" in n:
             o = strip(n["obj"])
+            if o.get("k") == "ref" and o.get("decl") in env.objs and c.get("const"):
+                sub = Env(list(env.objs[o["decl"]]), params, g.rec)
+                self.block(g.body, sub, depth + 1)
+                if sub.ret is None:
+                    raise Unsupported("callee %s returned nothing" % g.name)
+                return sub.ret
             if o.get("k") != "this":
                 raise Unsupported("member call on object other than this: %s" % c.get("name"))
-            sub = Env(env.storage, params, g.rec)
+            sub = Env(env.storage, params, g.rec, env.objs)
         elif c.get("rec") and not c.get("static") and n.get("ck") == "member":
             sub = Env(env.storage, params, g.rec)
         else:
@@ -633,11 +650,11 @@ class Interp:
             self.ev(s, env, depth)
 
     # ---------------------------------------------------------------- entry points
-    def run(self, fn, rec_size_bytes, params, storage=None):
+    def run(self, fn, rec_size_bytes, params, storage=None, objs=None):
         """Interpret member function `fn` on an object of rec_size_bytes.
         params: decl id -> BV. Returns (storage after, return BV or None)."""
         if storage is None:
             storage = [S(i) for i in range(rec_size_bytes * 8)]
-        env = Env(list(storage), params, fn.rec)
+        env = Env(list(storage), params, fn.rec, objs)
         self.block(fn.body, env)
         return env.storage, env.ret
